@@ -152,9 +152,12 @@ def run_case(case):
     S.start({})
     r1 = observe(fn, case)
     S.stop()
+    v = []
     if r1[0] != "ok" or json.dumps(r1[1]) != base:
-        raise RuntimeError("C14 harness: default schedule did not replay identically for %s" % (case,))
-    return dict(nontrivial=any(n > 1 for n in npoints), outcome="points=%d cand=%s" % (min(len(npoints), 5), "yes" if cands else "no"), violations=[],
+        # same input, same (default) iteration orders, same process, second call: a different output is exactly what the property forbids
+        v.append(viol("repeated-call-differs:in-process", "the same outputs computed twice in one process under the default set orders differ for %s" % (case,),
+                      r1[1] if r1[0] == "ok" else r1[2], r0[1]))
+    return dict(nontrivial=any(n > 1 for n in npoints), outcome="points=%d cand=%s" % (min(len(npoints), 5), "yes" if cands else "no"), violations=v,
                 states=states, transitions=transitions, traces=transitions + 2,
                 extra=dict(candidates=cands, inputs_with_candidates=1 if cands else 0, choice_points=len(npoints)))
 
